@@ -181,7 +181,10 @@ Definition kind_of_tok (s : string) : option vkind :=
   else if String.eqb s "ra" then Some KRA else if String.eqb s "na" then Some KNA
   else if String.eqb s "ns" then Some KNS else if String.eqb s "dhcp4" then Some KDHCP4
   else if String.eqb s "dns" then Some KDNS else if String.eqb s "pause" then Some KPause
-  else if String.eqb s "ieee1905" then Some KIEEE1905 else None.
+  else if String.eqb s "ieee1905" then Some KIEEE1905
+  else if String.eqb s "llc" then Some KLLC else if String.eqb s "snap" then Some KSNAP
+  else if String.eqb s "rrcp" then Some KRRCP else if String.eqb s "redirect" then Some KRedirect
+  else if String.eqb s "lldp" then Some KLLDP else None.
 
 (* MAC:IP:PORT *)
 Definition addr_of_tok (s : string) : option addr_t :=
@@ -214,6 +217,19 @@ Definition entry_of (args : list string) : option view :=
       if String.eqb k "addr" then option_map VAddr (addr_of_tok a)
       else if String.eqb k "name" then option_map VName (name_of_tok a)
       else None
+  | [k; a; b] =>
+      if String.eqb k "ipname" then opt_map2 (fun x y => VIpName (mkIpName x y)) (addr_of_tok a) (name_of_tok b)
+      else None
+  | [k; a; n; m] =>
+      if String.eqb k "dnsname" then
+        match addr_of_tok a, bytes_of_tok n, bytes_of_tok m with
+        | Some a', Some n', Some m' => Some (VDnsName (mkDnsName a' n' m')) | _, _, _ => None end
+      else None
+  | [k; n; i4; i6; cn] =>
+      if String.eqb k "dnsentry" then
+        match bytes_of_tok n, list_of_tok bytes_of_tok i4, list_of_tok bytes_of_tok i6, list_of_tok bytes_of_tok cn with
+        | Some n', Some a, Some b, Some c => Some (VDnsEntry (mkDnsEntry n' a b c)) | _, _, _, _ => None end
+      else None
   | [k; a; on; cap; st; mf; n1; n2; n3; n4; n5; ls] =>
       if String.eqb k "host" then
         match addr_of_tok a, bool_of_tok on, bool_of_tok cap, N_of_dec st, bytes_of_tok mf,
@@ -240,6 +256,16 @@ Definition entry_of (args : list string) : option view :=
       if String.eqb k "notif" then
         match addr_of_tok a, bool_of_tok on, bytes_of_tok mf, names_of_toks [n1; n2; n3; n4; n5], bool_of_tok rt with
         | Some a', Some on', Some mf', Some ns, Some rt' => Some (VNotif (mkNotif a' on' mf' ns rt'))
+        | _, _, _, _, _ => None
+        end
+      else if String.eqb k "lease" then
+        (* lease ID STATE ADDR NAME OFFER STAGE GW LAN SUBID *)
+        match bytes_of_tok a, N_of_dec on, addr_of_tok mf, bytes_of_tok n1, optbytes_of_tok n2 with
+        | Some id, Some st, Some ad, Some nm, Some off =>
+            match N_of_dec n3, optbytes_of_tok n4, bytes_of_tok n5, bytes_of_tok rt with
+            | Some sg, Some gw, Some lan, Some sid => Some (VLease (mkLease id st ad nm off sg gw lan sid))
+            | _, _, _, _ => None
+            end
         | _, _, _, _, _ => None
         end
       else None
